@@ -272,10 +272,40 @@ def poly_eval(e: ast.AST, env: Dict[str, Poly]) -> Poly:
         if cn == "len" and e.args:
             return Poly.atom(f"len({unparse(e.args[0])})")
         if cn == "getbit":
+            if len(e.args) == 2:
+                a, b = poly_eval(e.args[0], env).is_const(), poly_eval(e.args[1], env).is_const()
+                if a is not None and b is not None:
+                    return Poly.const((a >> b) & 1)
             return Poly.atom(unparse(e))
         if cn == "ord":
             return Poly.atom("<file byte>")
+    if isinstance(e, ast.IfExp):
+        t = poly_test(e.test, env)
+        if t is not None:
+            return poly_eval(e.body if t else e.orelse, env)
+        a, b = poly_eval(e.body, env), poly_eval(e.orelse, env)
+        if a == b:
+            return a
     return Poly.atom(f"<{unparse(e)}>")
+
+
+def poly_test(t: ast.AST, env: Dict[str, Poly]) -> Optional[bool]:
+    """Truth value of a test whose operands are constants of the environment (None: not decidable)."""
+    if isinstance(t, ast.UnaryOp) and isinstance(t.op, ast.Not):
+        v = poly_test(t.operand, env)
+        return None if v is None else not v
+    if isinstance(t, ast.BoolOp):
+        vs = [poly_test(x, env) for x in t.values]
+        if isinstance(t.op, ast.And):
+            return False if any(v is False for v in vs) else (None if any(v is None for v in vs) else True)
+        return True if any(v is True for v in vs) else (None if any(v is None for v in vs) else False)
+    if isinstance(t, ast.Compare) and len(t.ops) == 1:
+        a, b = poly_eval(t.left, env).is_const(), poly_eval(t.comparators[0], env).is_const()
+        if a is None or b is None:
+            return None
+        return {ast.Eq: a == b, ast.NotEq: a != b, ast.Lt: a < b, ast.LtE: a <= b, ast.Gt: a > b, ast.GtE: a >= b}.get(type(t.ops[0]))
+    c = poly_eval(t, env).is_const()
+    return None if c is None else bool(c)
 
 
 class DecoderFacts:
